@@ -409,6 +409,10 @@ class Deque(Sequence):
         :param iterable: iterable of values
 
         """
+        if iterable is self:
+            # like collections.deque: extending a deque by itself uses a snapshot
+            iterable = list(iterable)
+
         for value in iterable:
             self._append(value)
 
@@ -425,6 +429,9 @@ class Deque(Sequence):
         :param iterable: iterable of values
 
         """
+        if iterable is self:
+            iterable = list(iterable)
+
         for value in iterable:
             self._appendleft(value)
 
